@@ -48,18 +48,24 @@ structure Cfg where
   versionOr : Bool
   indexChecked : Bool
   lengthChecked : Bool
+  /-- requests of this many bytes or more are refused by the allocator (`malloc` returns null and the
+      code writes through it: `Err.alloc`).  The harness installs an allocator with exactly this limit. -/
+  allocLimit : Nat
   deriving Repr, DecidableEq
 
 /-- the reader as it is in the source tree the check runs on -/
 def Cfg.current : Cfg :=
   { checkAfterRead := Gen.Archive.checkAfterRead, versionOr := Gen.Archive.versionOr,
-    indexChecked := Gen.Archive.indexChecked, lengthChecked := Gen.Archive.lengthChecked }
+    indexChecked := Gen.Archive.indexChecked, lengthChecked := Gen.Archive.lengthChecked,
+    allocLimit := 2 ^ 20 }
 
 /-- every defect of the reader repaired -/
-def Cfg.fixed : Cfg := { checkAfterRead := true, versionOr := true, indexChecked := true, lengthChecked := true }
+def Cfg.fixed : Cfg :=
+  { checkAfterRead := true, versionOr := true, indexChecked := true, lengthChecked := true, allocLimit := 2 ^ 20 }
 /-- the reader of the unrepaired tree (used by the counter-example theorems) -/
 def Cfg.legacy : Cfg :=
-  { checkAfterRead := false, versionOr := false, indexChecked := false, lengthChecked := false }
+  { checkAfterRead := false, versionOr := false, indexChecked := false, lengthChecked := false,
+    allocLimit := 2 ^ 20 }
 
 /-- `version_info_t` -/
 structure Info where
@@ -73,8 +79,6 @@ def tagOf (name : String) : Nat := Gen.Archive.tagNames.idxOf name
 def nullIdx : Nat := Gen.Archive.nullPointer
 def archiveVersion : Nat := Gen.Archive.archiveVersion
 
-/-- requests above this many bytes are treated as failing allocations (`Err.alloc`) -/
-def allocLimit : Nat := 2 ^ 20
 /-- `str::resize(n)` asks for `sizeof(strdata) + n + 1` bytes -/
 def strAlloc (n : Nat) : Nat := n + 25
 
@@ -244,14 +248,14 @@ def readStr (cfg : Cfg) (init : Bytes) (s : RS) : Res Bytes :=
     let n := unle lb
     if n = 0 then .ok init s
     else if cfg.lengthChecked && !lenGe s.rest n then .err .streamFail s
-    else if strAlloc n ≥ allocLimit then .err .alloc s
+    else if strAlloc n ≥ cfg.allocLimit then .err .alloc s
     else readData cfg rawTag n (some (resized init n)) s
 
 /-- `classpointerList.AddObjectAt(i, o)` (preceded by the range check when the reader has one) -/
 def addAt (cfg : Cfg) (i : Nat) (o : Lbl) (s : RS) : Res Unit :=
   if cfg.indexChecked && (i == 0 || i > s.table.length) then .err .invalidIndex s
   else if i = 0 then .err .oob s
-  else if i * 8 ≥ allocLimit then .err .alloc s
+  else if i * 8 ≥ cfg.allocLimit then .err .alloc s
   else .ok () { s with table := (s.table ++ zeros' (i - s.table.length)).set (i - 1) o }
 where zeros' (n : Nat) : List Lbl := List.replicate n 0
 
@@ -322,7 +326,7 @@ def readHeader (cfg : Cfg) (info : Info) (s : RS) : Res Unit :=
         (readStr cfg info.name s).bind fun _ s =>
           (readPrim cfg .u32 s).bind fun n s =>
             if cfg.lengthChecked && !lenGe s.rest (8 * n) then .err .invalidHeader s
-            else if n * 8 ≥ allocLimit then .err .alloc s
+            else if n * 8 ≥ cfg.allocLimit then .err .alloc s
             else .ok () { s with table := List.replicate n 0 }
 
 mutual
